@@ -460,7 +460,7 @@ fn carrier(i: usize, fk: &FailKind) -> Carrier {
             name: "display-in-interpolation",
             defs: format!("o =\n  @display: ||\n{}", indent(f, 4)),
             trigger: "\"d={o}\"".into(),
-            events: format!("rs enter:2:0:k0 nf:2 {fe}"),
+            events: format!("rs eop:2:0:k0 nf:2 {fe}"),
             builders: (0, 1),
         },
         _ => Carrier {
@@ -780,6 +780,7 @@ fn gen_history(rng: &mut Rng, mod_dir: &str, max_native_err: usize) -> History {
             _ => gen_tostring_op(rng, k),
         };
         // generation filter (F-C07-1): keep the accumulated register residue far from the u8 wrap
+        // (only relevant while F-C07-1 is open; `max_native_err` is usize::MAX once it is fixed)
         if op.residue_class == "native-err" || op.residue_class == "call-setup" {
             native_err += 1;
             if native_err > max_native_err {
@@ -954,6 +955,7 @@ fn check_history(
             let d_seq = pred.2 as i64 - prev_pred.2 as i64;
             let d_str = pred.3 as i64 - prev_pred.3 as i64;
             if d_regs != 0 {
+                // F-C07-1 (fixed by 5247d9c) explains register residue only while it is listed as open
                 let class_ok = (op.residue_class == "native-err" || op.residue_class == "call-setup") && known.f1 && d_regs == 2 + op.args.len() as i64;
                 if class_ok {
                     *attributed.entry("F-C07-1".into()).or_insert(0) += 1;
@@ -1152,32 +1154,32 @@ fn gen_vm_op(rng: &mut Rng) -> VmOp {
     match rng.below(19) {
         0 => mk("neg", "num", "", "ed:2:1", true, "", 0),
         1 => mk("neg", "str", "", "ed:2:0", false, "op-early-return", 2),
-        2 => mk("neg", "o_ok", "", "enter:2:0:k0 nf:2 ret", true, "", 0),
-        3 => mk("neg", "o_bad", "", "enter:2:0:k0 nf:2 raise:1", false, "", 0),
-        4 => mk("neg", "o_deep", "", "enter:2:0:k0 nf:3 ss call:3:0 nf:1 raise:1", false, "builder", 0),
+        2 => mk("neg", "o_ok", "", "eop:2:0:k0 nf:2 ret", true, "", 0),
+        3 => mk("neg", "o_bad", "", "eop:2:0:k0 nf:2 raise:1", false, "", 0),
+        4 => mk("neg", "o_deep", "", "eop:2:0:k0 nf:3 ss call:3:0 nf:1 raise:1", false, "builder", 0),
         5 => mk("display", "num", "", "ed:2:1", true, "", 0),
-        6 => mk("display", "o_ok", "", "enter:2:0:k0 nf:2 ret", true, "", 0),
-        7 => mk("display", "o_bad", "", "enter:2:0:k0 nf:2 raise:1", false, "", 0),
+        6 => mk("display", "o_ok", "", "eop:2:0:k0 nf:2 ret", true, "", 0),
+        7 => mk("display", "o_bad", "", "eop:2:0:k0 nf:2 raise:1", false, "", 0),
         8 => mk("size", "list", "", "ed:2:1", true, "", 0),
         9 => mk("size", "num", "", "ed:2:0", false, "op-early-return", 2),
-        10 => mk("size", "o_ok", "", "enter:2:0:k0 nf:2 ret", true, "", 0),
-        11 => mk("size", "o_bad", "", "enter:2:0:k0 nf:2 raise:1", false, "", 0),
+        10 => mk("size", "o_ok", "", "eop:2:0:k0 nf:2 ret", true, "", 0),
+        11 => mk("size", "o_bad", "", "eop:2:0:k0 nf:2 raise:1", false, "", 0),
         12 => mk("add", "num", "num", "ed:3:1", true, "", 0),
         13 => mk("add", "num", "str", "ed:3:0", false, "op-early-return", 3),
         // arithmetic overloads run in a nested loop inside run_add (call_metamap_arithmetic_op):
-        // the body of run_binary_op is native code holding 3 registers (`enter:2:0:n` = 2 + frame-base
+        // the body of run_binary_op is native code holding 3 registers (`eop:2:0:n` = 2 + frame-base
         // slot = 3 pushed registers, result register first) that starts a nested loop (`nest`); the
         // failed overload's frame registers (NewFrame 4) stay, pop_frame of a barrier frame does not
         // resize
-        14 => mk("add", "o_ok", "num", "enter:2:0:n nest:1:1 nf:3 ret nr:1", true, "", 0),
-        15 => mk("add", "o_bad", "num", "enter:2:0:n nest:1:1 nf:4 raise:1 nr:0", false, "op-early-return", 7),
+        14 => mk("add", "o_ok", "num", "eop:2:0:n nest:1:1 nf:3 ret nr:1", true, "", 0),
+        15 => mk("add", "o_bad", "num", "eop:2:0:n nest:1:1 nf:4 raise:1 nr:0", false, "op-early-return", 7),
         16 => mk("less", "num", "str", "ed:3:0", false, "op-early-return", 3),
-        17 => mk("less", "o_ok", "num", "enter:3:1:k1 nf:3 ret", true, "", 0),
+        17 => mk("less", "o_ok", "num", "eop:3:1:k1 nf:3 ret", true, "", 0),
         _ => {
             if rng.chance(1, 2) {
-                mk("less", "o_bad", "num", "enter:3:1:k1 nf:3 raise:1", false, "", 0)
+                mk("less", "o_bad", "num", "eop:3:1:k1 nf:3 raise:1", false, "", 0)
             } else {
-                mk("less", "o_deep", "num", "enter:3:1:k1 nf:4 ss se cn:4 enter:1:2:k2 nf:3 call:3:0 nf:1 raise:1 nr:0", false, "", 0)
+                mk("less", "o_deep", "num", "eop:3:1:k1 nf:4 ss se cn:4 enter:1:2:k2 nf:3 call:3:0 nf:1 raise:1 nr:0", false, "", 0)
             }
         }
     }
@@ -1523,11 +1525,30 @@ fn main() {
         cx.run_history(&h, false, "sweep:imports");
     }
 
+    // 1b. F-C07-1 regression shape: 120 failing host-initiated calls, then good calls and probes
+    if !cx.known.f1 {
+        let mut r = rng.fork();
+        let mut ops = vec![setup_op()];
+        let mut k = 0;
+        while ops.len() < 121 {
+            k += 1;
+            let op = gen_call_op(&mut r, k);
+            if op.residue_class == "native-err" || op.residue_class == "call-setup" {
+                ops.push(op);
+            }
+        }
+        for k in 0..4 {
+            ops.push(gen_call_op(&mut r, 1000 + k));
+        }
+        let h = History { ops, limit_ms: 0, mod_dir: mod_dir_s.clone() };
+        cx.run_history(&h, false, "sweep:120-failing-host-calls");
+    }
+
     // 2. random histories
     let n_hist = if args.thorough() { 12000 } else { 400 };
     for hi in 0..n_hist {
         let mut r = rng.fork();
-        let h = gen_history(&mut r, &mod_dir_s, 20);
+        let h = gen_history(&mut r, &mod_dir_s, if cx.known.f1 { 20 } else { usize::MAX });
         cx.run_history(&h, false, &format!("random:{hi}"));
     }
 
